@@ -6,7 +6,8 @@
  * Type names: int8 int16 int32 int64 uint8 uint16 uint32 uint64 decimal64 string binary
  * (decimal64 with <fd> = fraction-digits, 0 for the others).
  *
- * Cases (hex byte strings, "-" = empty, "~" = the typedef has no restriction statement):
+ * Cases (hex byte strings, "-" = empty, "~" = the typedef has no restriction statement, "~p" = (string only) the typedef
+ * adds only a pattern, so that the inherited length is copied by lysc_range_dup()):
  *   rngd <type> <fd> <hex text> <nb> <lo_1> <hi_1> ... <lo_nb> <hi_nb>
  *        lys_compile_type_range() called directly on the argument text with a hand-made base restriction of
  *        nb parts (nb = 0: no base, i.e. directly derived from the built-in type)
@@ -224,13 +225,16 @@ done:
                     snprintf(tmp, sizeof tmp, " typedef t%d {type t%d", i, i - 1);
                 }
                 add_str(&m, &mn, &mcap, tmp);
-                if (((i == 1) && (ty->bt == LY_TYPE_DEC64)) || strcmp(h, "~")) {
+                if (!strcmp(h, "~p") && (ty->bt == LY_TYPE_STRING)) {
+                    /* a level that adds only a pattern: the length of the base type is inherited (copied) */
+                    add_str(&m, &mn, &mcap, " {pattern \".*\";}}\n");
+                } else if (((i == 1) && (ty->bt == LY_TYPE_DEC64)) || (strcmp(h, "~") && strcmp(h, "~p"))) {
                     add_str(&m, &mn, &mcap, " {");
                     if ((i == 1) && (ty->bt == LY_TYPE_DEC64)) {
                         snprintf(tmp, sizeof tmp, "fraction-digits %d; ", fd);
                         add_str(&m, &mn, &mcap, tmp);
                     }
-                    if (strcmp(h, "~")) {
+                    if (strcmp(h, "~") && strcmp(h, "~p")) {
                         char *r = vunhex(h, NULL);
 
                         add_str(&m, &mn, &mcap, ty->length ? "length \"" : "range \"");
